@@ -78,6 +78,7 @@ def _cfgs(tier="quick"):
     out = []
     for mb in (0, 1, 2):
         nslots = 1 << mb
+        out.append((mb, ()))        # a dirty shard whose minishards are all empty: index padding alone (cheap queries)
         for r in range(1, nslots + 1):
             if r > 2 and tier != "thorough":
                 continue            # three and four non-empty minishards: thorough tier (minutes per configuration)
@@ -176,6 +177,11 @@ class ShardClose(Contract):
         log = [op for (op, p) in fs.log if p == FILE]
         yield ("write-order:placeholder-first,seek(0)-and-real-index-last", len(log) >= 4 and log[0].startswith("open:wb")
                and log[1] == "write" and log[-2] == "seek" and log[-1] == "write")
+        # the shard index occupies exactly 16 * 2^minishard_bits bytes: the placeholder written first and the
+        # real index written last (at position 0) both have that length, so neither spills into the chunk data
+        wr = getattr(ents[0], "writes", [])
+        yield ("index-writes:placeholder-and-final-index-are-exactly-16*2^minishard_bits-bytes",
+               len(wr) >= 2 and And(wr[0][1].len == H, wr[-1][1].len == H) and wr[-1][0] == 0 and wr[0][0] is None)
         yield ("closed:dirty-flag-cleared", self._shard_attr("dirty") is False)
 
     def _shard_attr(self, name):
@@ -201,7 +207,7 @@ class ShardCloseWriteOrder(ShardClose):
                 yield nm, cond
 
 
-def native_shard_check(cfg):
+def native_shard_check(cfg, shard_bits=0, index_encoding="raw"):
     """store one chunk in each listed minishard, close, parse the shard file with a reader written from
     sharded.md"""
     import contextlib
@@ -211,11 +217,18 @@ def native_shard_check(cfg):
     import tempfile
     from neuroglancer_scripts.sharded_file_accessor import ShardedFileAccessor
     mb, keys = cfg
+    if not keys:
+        # the all-empty configurations are about the index padding: show it on partially filled shards
+        for mb2, sb2 in ((1, 2), (2, 3), (1, 0)):
+            r = native_shard_check((mb2, (0,)), shard_bits=sb2)
+            if r["reproduced"]:
+                return r
+        return r
     grid = 1 << mb
     info = {"type": "image", "data_type": "uint8", "num_channels": 1, "scales": [{
-        "key": "s0", "size": [grid, 1, 1], "chunk_sizes": [[1, 1, 1]], "encoding": "raw", "resolution": [1, 1, 1], "voxel_offset": [0, 0, 0],
-        "sharding": {"@type": "neuroglancer_uint64_sharded_v1", "minishard_bits": mb, "shard_bits": 0, "preshift_bits": 0,
-                     "hash": "identity", "minishard_index_encoding": "raw", "data_encoding": "raw"}}]}
+        "key": "s0", "size": [grid << shard_bits, 1, 1], "chunk_sizes": [[1, 1, 1]], "encoding": "raw", "resolution": [1, 1, 1], "voxel_offset": [0, 0, 0],
+        "sharding": {"@type": "neuroglancer_uint64_sharded_v1", "minishard_bits": mb, "shard_bits": shard_bits, "preshift_bits": 0,
+                     "hash": "identity", "minishard_index_encoding": index_encoding, "data_encoding": "raw"}}]}
     with tempfile.TemporaryDirectory() as td, contextlib.redirect_stdout(io.StringIO()):
         acc = ShardedFileAccessor(td, strategy="in memory")
         acc.info = copy.deepcopy(info)
@@ -223,12 +236,19 @@ def native_shard_check(cfg):
             acc.store_chunk(bytes([65 + k]) * (k + 1), "s0", (k, k + 1, 0, 1, 0, 1))
         acc.close()
         import pathlib as pl
-        F = next((pl.Path(td) / "s0").glob("*.shard")).read_bytes()
+        F = sorted((pl.Path(td) / "s0").glob("*.shard"))[0].read_bytes()
     H = 16 << mb
     for m in range(1 << mb):
         s, e = struct.unpack_from("<QQ", F, 16 * m)
         if m in keys:
-            idx = np.frombuffer(F[H + s:H + e], "<u8").reshape(3, -1) if e > s else None
+            raw = F[H + s:H + e]
+            if index_encoding == "gzip" and e > s:
+                import zlib
+                try:
+                    raw = zlib.decompress(raw, 47)             # zlib or gzip container (the container is a recorded finding)
+                except Exception as ex:
+                    return {"reproduced": True, "detail": f"minishard_bits={mb} stored minishards {keys}, gzip index: slot {m} [{s},{e}) does not delimit a compressed stream ({ex})"}
+            idx = np.frombuffer(raw, "<u8").reshape(3, -1) if e > s and len(raw) % 24 == 0 else None
             if idx is None or idx.shape[1] != 1 or int(idx[0, 0]) != m:
                 return {"reproduced": True, "detail": f"minishard_bits={mb} stored minishards {keys}: slot {m} of the shard index holds {None if idx is None else idx.tolist()} instead of the index of minishard {m}"}
             off, size = int(idx[1, 0]), int(idx[2, 0])
@@ -267,3 +287,90 @@ class FindingGzip(Lemma):
         out = s.data_encoder(b"hello"), s.index_encoder(b"hello")
         bad = not all(o[:2] == b"\x1f\x8b" for o in out)
         return bad, f"'gzip' data/index encoders produce {out[0][:2].hex()}.. (zlib container, RFC 1950) instead of a gzip member 1f8b.. (RFC 1952)"
+
+
+# --------------------------------------------------------------------------- encoded (gzip) minishard indices
+
+class IndexEncoderAbs(Contract):
+    """ShardSpec.index_encoder for minishard_index_encoding 'gzip': some byte string (the compressed form) that
+    remembers what it encodes; its container format is the recorded finding C04-gzip-is-zlib-container"""
+    target = "neuroglancer_scripts.sharded_base.ShardSpec.index_encoder"
+    name = "ShardSpec.index_encoder[call-site]"
+    props = ()
+    has_body = False
+
+    def setup(self, c, cfg):
+        raise NotImplementedError
+
+    def apply(self, interp, fn, args, kwargs):
+        c = ctx()
+        src = args[1]
+        out = SBytes.fresh(c, c.fresh_name("encoded_index"), inp=False)
+        c.assume(out.len < (1 << 40))
+        out.encoded_from = src
+        c.calls_log.append((self.target, {"b": src}, out))
+        return out
+
+
+@register
+class ShardCloseEncodedIndex(ShardClose):
+    """Shard.close with an ENCODED minishard index: every slot delimits exactly the encoded bytes that were
+    written for that minishard (offsets advance by the encoded length, not the raw one), and what is encoded
+    is the [3, n] uint64le array in C order"""
+    name = "Shard.close[encoded minishard index]"
+    props = ("C04",)
+    configs = ((0, (0,)), (1, (0,)), (1, (0, 1)))
+
+    def configs_for(self, tier):
+        return list(self.configs)
+
+    def local_contracts_for(self, cfg):
+        d = dict(super().local_contracts_for(cfg))
+        d[IndexEncoderAbs.target] = IndexEncoderAbs()
+        return d
+
+    def ensures(self, c, result):
+        mb, keys = self.cfg
+        H = 16 << mb
+        fs = get_fs()
+        ents = [e for e in fs.entries if not e.initial]
+        yield ("exactly-one-file-written:<shard>.shard", len(ents) == 1 and ents[0].path == FILE)
+        if len(ents) != 1 or not isinstance(ents[0].content, SBytes):
+            return
+        F = ents[0].content
+        encs = [x for x in c.calls_log if x[0] == IndexEncoderAbs.target]
+        yield ("one-encoded-index-per-non-empty-minishard", len(encs) == len(keys))
+        if len(encs) != len(keys):
+            return
+        total_data = 0
+        for k in sorted(keys):
+            total_data = total_data + self.minis[k][3].len
+        pos = total_data
+        j = c.int("j_enc", inp=True)
+        known = getattr(c, "known", {}) or {}
+        compact = sorted(keys) == list(range(len(keys)))
+        for n_, k in enumerate(sorted(keys)):
+            enc = encs[n_][2]
+            src = encs[n_][1]["b"]
+            obj, n, header, data = self.minis[k]
+            ok = isinstance(src, SBytes) and src.packed is not None
+            yield (f"minishard{k}:what-is-encoded-is-an-array-written-out-with-tobytes", ok)
+            if ok:
+                arr, order = src.packed
+                yield (f"minishard{k}:encoded-array-is-[3,n]-uint64-in-C-order", arr.ndim == 2 and order == "C" and arr.dtype == np.dtype(np.uint64)
+                       and And(arr.shape[0] == 3, arr.shape[1] == n))
+                t = c.int(f"t_enc{k}", inp=True)
+                c.assume(And(t >= 0, t < n))
+                for r, nm in enumerate(("id-deltas", "offset-deltas", "sizes")):
+                    if arr.ndim == 2:
+                        yield (f"minishard{k}:row-{nm}", arr.elem(r, t) == header.elem(3 * t + r))
+            if not (known.get("C04-minishard-index-slot-is-compacted") and not compact):
+                start = read_uint(F, 16 * k, 8)
+                end = read_uint(F, 16 * k + 8, 8)
+                yield (f"slot[{k}]:delimits-exactly-the-ENCODED-index-bytes-written", And(start == pos, end == pos + enc.len))
+            yield (f"minishard{k}:encoded-index-bytes-stored-at-that-position", implies(And(j >= 0, j < enc.len), F.fn(H + pos + j) == enc.fn(j)))
+            pos = pos + enc.len
+        yield ("file-length==index+data+encoded-minishard-indices", F.len == H + pos)
+
+    def replay(self, model, cfg, ob_name):
+        return native_shard_check(cfg, index_encoding="gzip")
